@@ -163,6 +163,14 @@ def check_pair(case, res):
                     bad('intersection-inside', 'inside both operands', repr(I), order=tag)
             if I.region != X.region or I.fixed != X.fixed or I.hard != X.hard:
                 bad('intersection-attributes', (X.region, X.fixed, X.hard), (I.region, I.fixed, I.hard))
+    # the ground region given implicitly (no region argument) and explicitly ('_', as duplicate() and the die do) is the same region
+    from frame.geometry.geometry import Rectangle as _R, Shape as _S
+    A0 = _R(center=Point(A.center.x, A.center.y), shape=_S(A.shape.w, A.shape.h))
+    for (X, Y, tag) in ((A0, B, 'implicit*explicit'), (B, A0, 'explicit*implicit'), (A0.duplicate(), A0, 'copy*implicit')):
+        I0 = X * Y
+        Iref = (A * B) if tag != 'copy*implicit' else (A * A)
+        if (I0 is None) != (Iref is None) or (I0 is not None and bb_tuple(I0) != bb_tuple(Iref)):
+            bad('intersection-ground-spelling', repr(Iref), repr(I0), order=tag)
     # different regions: never an intersection, but the common area and the overlap predicate are plain geometry
     A2, _ = mk(fam, ra, region='dsp')
     if (A2 * B) is not None or (B * A2) is not None:
@@ -176,7 +184,9 @@ def check_pair(case, res):
     # objects (as names read from two YAML scalars are): regions match by value, not by identity
     A3, _ = mk(fam, ra, region=_runtime_name('dsp'), fixed=True, hard=True)
     B3, _ = mk(fam, rb, region=_runtime_name('dsp'))
-    assert A3.region == B3.region and A3.region is not B3.region
+    if A3.region != 'dsp' or not A3.fixed or not A3.hard or B3.region != 'dsp':
+        bad('constructor-attributes', ('dsp', True, True), (A3.region, A3.fixed, A3.hard, B3.region))
+        return
     I3 = A3 * B3
     if (exact or common > 0 or _apart(ea, eb)) and (I3 is not None) != (common > 0):
         bad('intersection-existence', common > 0, repr(I3), order='dsp')
@@ -289,6 +299,15 @@ def check_single(case, res):
             bad('aspect_ratio', str(exp_ar), R.aspect_ratio)
         if not rect_eq(R, ex, t1):
             bad('bounding_box', [str(v) for v in ex], repr(R.bounding_box))
+        if (R.region, bool(R.fixed), bool(R.hard)) != (region, fixed, hard):
+            bad('constructor-attributes', (region, fixed, hard), (R.region, R.fixed, R.hard))
+        # the same attributes given after construction, through the setters (as Module.is_fixed and the allocation do)
+        S, _ = mk(fam, r, region)
+        S.fixed, S.hard = fixed, hard
+        for P in list(S.split()) + [S.duplicate()]:
+            if (P.region, bool(P.fixed), bool(P.hard)) != (region, fixed, hard):
+                bad('split-after-setters', (region, fixed, hard), (P.region, P.fixed, P.hard))
+                break
         D = R.duplicate()
         if not (D == R and D is not R and D.fixed == fixed and D.hard == hard and D.region == region):
             bad('duplicate', repr(R), repr(D))
